@@ -30,6 +30,7 @@ typedef struct {
 	int sigcap;
 	_Atomic int in_forever;
 	_Atomic int waiters_done;
+	_Atomic uint64_t waits_returned;
 	uint64_t salt;
 	pthread_barrier_t bar;
 } strial_t;
@@ -71,6 +72,7 @@ static void *waiter_main(void *arg)
 		w->ret = vf_stamp();
 		if (w->kind == W_FOREVER) atomic_fetch_sub(&t->in_forever, 1);
 		w->ok = (r == 0);
+		atomic_fetch_add_explicit(&t->waits_returned, 1, memory_order_relaxed);
 		vf_progress();
 		if (vf_rnd_n(&c->rng, 8) == 0) sched_yield();
 	}
@@ -128,10 +130,16 @@ static void run_trial(int idx)
 	/* top-up: release forever-waiters that the timed waiters starved of permits.
 	 * Enough signals DO arrive; a waiter that stays blocked is a lost wake-up. */
 	vf_watch_begin("sema:forever-waiters-must-be-released", 0);
-	uint64_t topups = 0;
+	uint64_t topups = 0, last_returned = 0; long pause_ns = 200000;
 	while (atomic_load(&t->waiters_done) < t->nw) {
-		if (atomic_load(&t->in_forever) > 0) { do_signal(t); topups++; }
-		struct timespec ts = { 0, 200000 };
+		/* never more top-ups than records: by then more permits were issued than all wait operations of the trial can consume,
+		 * so every remaining wait succeeds on a correct library; if waiters stay blocked all the same, the stuck rule reports it */
+		if (atomic_load(&t->in_forever) > 0 && atomic_load(&t->nsig) < t->sigcap - 1) { do_signal(t); topups++; }
+		/* paced by the waiters: while top-ups release nobody the pause doubles (up to 50 ms), so that a library that lost a
+		 * wake-up falls idle and the stuck rule can see it instead of a steady stream of signals */
+		uint64_t wr = atomic_load_explicit(&t->waits_returned, memory_order_relaxed);
+		if (wr != last_returned) { last_returned = wr; pause_ns = 200000; } else if (pause_ns < 50000000) pause_ns *= 2;
+		struct timespec ts = { 0, pause_ns };
 		nanosleep(&ts, NULL);
 	}
 	for (int i = 0; i < t->nw; i++) pthread_join(th[i].th, NULL);
